@@ -298,9 +298,12 @@ fn verif_c12() {
     // (C03: credit conservation; C04: a writer that sleeps although credit arrived)
     let prop = env("VERIF_C12_AS").unwrap_or_else(|| "C12".into());
     let reduced = prop != "C12";
-    let mine = |msg: &str| match prop.as_str() {
+    // (C05/C06: a writer waiting for credit when the flow is closed under it - peer abort, Reset, connection end - must be
+    // woken and fail with BrokenPipe instead of sleeping for ever)
+    let mine = |msg: &str, sc: &Scenario| match prop.as_str() {
         "C03" => msg.contains("C12-credit"),
-        "C04" => msg.contains("deadlock") || msg.contains("C12-progress"),
+        "C04" => (msg.contains("deadlock") && !sc.closes()) || msg.contains("C12-progress"),
+        "C05" | "C06" => msg.contains("deadlock") && sc.closes(),
         _ => true,
     };
 
@@ -331,7 +334,7 @@ fn verif_c12() {
             };
         }
         match failed {
-            Some(m) if mine(&m) => {
+            Some(m) if mine(&m, &sc) => {
                 std::println!("REPLAY: violation reproduced: {}", m.lines().next().unwrap_or(""));
                 std::println!("VIOLATION property={prop} replay={path}");
                 panic!("violation");
@@ -342,70 +345,100 @@ fn verif_c12() {
     }
 
     let scs = scenarios(thorough);
-    let iters_random = match (reduced, thorough) { (false, true) => 100_000, (false, false) | (true, true) => 8_000, (true, false) => 2_000 };
-    let iters_pct = match (reduced, thorough) { (false, true) => 30_000, (false, false) | (true, true) => 3_000, (true, false) => 800 };
+    let iters_random = match (reduced, thorough) { (false, true) => 200_000, (false, false) | (true, true) => 24_000, (true, false) => 6_000 };
+    let iters_pct = match (reduced, thorough) { (false, true) => 60_000, (false, false) | (true, true) => 9_000, (true, false) => 2_500 };
     let mut violations = 0u32;
     let mut first_msg = String::new();
-    let sched_dir = format!("{out_dir}/target/c12-schedules");
-    std::fs::create_dir_all(&sched_dir).ok();
-    let mut samples: Vec<String> = vec![];
-    for (k, sc) in scs.iter().enumerate() {
-        for mode in 0..3 {
-            // stale schedule files of earlier failures
-            if let Ok(rd) = std::fs::read_dir(&sched_dir) {
-                for e in rd.flatten() {
-                    std::fs::remove_file(e.path()).ok();
+    let sched_root = format!("{out_dir}/target/c12-schedules");
+    std::fs::remove_dir_all(&sched_root).ok();
+    std::fs::create_dir_all(&sched_root).ok();
+    // scenarios are independent: explored by a pool of OS threads (one shuttle runner each), findings reported in scenario order
+    struct Finding {
+        k: usize,
+        mode: usize,
+        msg: String,
+        schedule: String,
+        s: u64,
+    }
+    let next = std::sync::atomic::AtomicUsize::new(0);
+    let found: StdMutex<Vec<Finding>> = StdMutex::new(vec![]);
+    let notes: StdMutex<Vec<(usize, String)>> = StdMutex::new(vec![]);
+    let workers = std::thread::available_parallelism().map(|n| n.get()).unwrap_or(4).min(16);
+    std::thread::scope(|scope| {
+        for _ in 0..workers {
+            scope.spawn(|| loop {
+                let k = next.fetch_add(1, StdOrdering::SeqCst);
+                if k >= scs.len() || found.lock().unwrap().len() >= 8 {
+                    return;
                 }
-            }
-            let mut cfg = shuttle::Config::new();
-            cfg.failure_persistence = shuttle::FailurePersistence::File(Some(sched_dir.clone().into()));
-            let sc2 = sc.clone();
-            let s = seed ^ ((k as u64) << 8) ^ mode as u64;
-            let res = std::panic::catch_unwind(move || match mode {
-                0 => shuttle::Runner::new(shuttle::scheduler::RandomScheduler::new_from_seed(s, iters_random), cfg).run(move || execute(&sc2)),
-                1 => shuttle::Runner::new(shuttle::scheduler::PctScheduler::new_from_seed(s, 2, iters_pct), cfg).run(move || execute(&sc2)),
-                _ => shuttle::Runner::new(shuttle::scheduler::PctScheduler::new_from_seed(s, 3, iters_pct), cfg).run(move || execute(&sc2)),
-            });
-            if let Err(p) = res {
-                let msg = p.downcast_ref::<String>().cloned().or_else(|| p.downcast_ref::<&str>().map(|s| (*s).into())).unwrap_or_else(|| "panic".into());
-                if !mine(&msg) {
-                    std::println!("NOTE scenario {}: a failure outside {prop}'s statement (reported by the C12 check): {}", sc.encode(), msg.lines().next().unwrap_or(""));
-                    break;
-                }
-                violations += 1;
-                // the failing schedule was persisted by shuttle
-                let mut schedule = String::new();
-                if let Ok(rd) = std::fs::read_dir(&sched_dir) {
-                    for e in rd.flatten() {
-                        if let Ok(t) = std::fs::read_to_string(e.path()) {
-                            schedule = t.trim().to_string();
+                let sc = &scs[k];
+                let sched_dir = format!("{sched_root}/{k}");
+                for mode in 0..3usize {
+                    std::fs::remove_dir_all(&sched_dir).ok();
+                    std::fs::create_dir_all(&sched_dir).ok();
+                    let mut cfg = shuttle::Config::new();
+                    cfg.failure_persistence = shuttle::FailurePersistence::File(Some(sched_dir.clone().into()));
+                    let sc2 = sc.clone();
+                    let s = seed ^ ((k as u64) << 8) ^ mode as u64;
+                    let res = std::panic::catch_unwind(move || match mode {
+                        0 => shuttle::Runner::new(shuttle::scheduler::RandomScheduler::new_from_seed(s, iters_random), cfg).run(move || execute(&sc2)),
+                        1 => shuttle::Runner::new(shuttle::scheduler::PctScheduler::new_from_seed(s, 2, iters_pct), cfg).run(move || execute(&sc2)),
+                        _ => shuttle::Runner::new(shuttle::scheduler::PctScheduler::new_from_seed(s, 3, iters_pct), cfg).run(move || execute(&sc2)),
+                    });
+                    if let Err(p) = res {
+                        let msg = p.downcast_ref::<String>().cloned().or_else(|| p.downcast_ref::<&str>().map(|s| (*s).into())).unwrap_or_else(|| "panic".into());
+                        if !mine(&msg, sc) {
+                            notes.lock().unwrap().push((k, msg.lines().next().unwrap_or("").to_string()));
+                            break;
                         }
+                        // the failing schedule was persisted by shuttle
+                        let mut schedule = String::new();
+                        if let Ok(rd) = std::fs::read_dir(&sched_dir) {
+                            for e in rd.flatten() {
+                                if let Ok(t) = std::fs::read_to_string(e.path()) {
+                                    schedule = t.trim().to_string();
+                                }
+                            }
+                        }
+                        found.lock().unwrap().push(Finding { k, mode, msg, schedule, s });
+                        break; // next scenario
                     }
                 }
-                let kind = if msg.contains("deadlock") { "lost wake-up: the writer sleeps although credit arrived or the stream was closed (deadlock)" } else { "credit/termination assertion" };
-                let replay = format!("{out_dir}/replays/{prop}{}-{}-{:x}.json", if reduced { "-threads" } else { "" }, sc.encode().replace([':', ','], "_"), s & 0xffff);
-                std::fs::create_dir_all(format!("{out_dir}/replays")).ok();
-                let body = format!(
-                    "{{\n \"property\": \"{prop}\",\n \"section\": \"shuttle\",\n \"scenario\": \"{}\",\n \"scheduler\": \"{}\",\n \"schedule\": \"{}\",\n \"msg\": \"{}\"\n}}\n",
-                    sc.encode(),
-                    ["random", "pct-2", "pct-3"][mode],
-                    json_escape(&schedule),
-                    json_escape(&format!("{kind}: {}", msg.lines().next().unwrap_or("")))
-                );
-                std::fs::write(&replay, body).ok();
-                std::println!("VIOLATION property={prop} replay={replay}");
-                std::println!("  scenario c0:want:writers:ops = {}  [{}]  {kind}: {}", sc.encode(), ["random", "pct-2", "pct-3"][mode], msg.lines().next().unwrap_or(""));
-                if first_msg.is_empty() {
-                    first_msg = msg;
-                }
-                break; // next scenario
-            }
+                std::fs::remove_dir_all(&sched_dir).ok();
+            });
         }
+    });
+    let mut notes = notes.into_inner().unwrap();
+    notes.sort();
+    for (k, m) in notes.iter().take(5) {
+        std::println!("NOTE scenario {}: a failure outside {prop}'s statement (reported by the C12 check): {m}", scs[*k].encode());
+    }
+    let mut found = found.into_inner().unwrap();
+    found.sort_by_key(|f| f.k);
+    for f in found.iter().take(3) {
+        let sc = &scs[f.k];
+        violations += 1;
+        let kind = if f.msg.contains("deadlock") { "lost wake-up: the writer sleeps although credit arrived or the stream was closed (deadlock)" } else { "credit/termination assertion" };
+        let replay = format!("{out_dir}/replays/{prop}{}-{}-{:x}.json", if reduced { "-threads" } else { "" }, sc.encode().replace([':', ','], "_"), f.s & 0xffff);
+        std::fs::create_dir_all(format!("{out_dir}/replays")).ok();
+        let body = format!(
+            "{{\n \"property\": \"{prop}\",\n \"section\": \"shuttle\",\n \"scenario\": \"{}\",\n \"scheduler\": \"{}\",\n \"schedule\": \"{}\",\n \"msg\": \"{}\"\n}}\n",
+            sc.encode(),
+            ["random", "pct-2", "pct-3"][f.mode],
+            json_escape(&f.schedule),
+            json_escape(&format!("{kind}: {}", f.msg.lines().next().unwrap_or("")))
+        );
+        std::fs::write(&replay, body).ok();
+        std::println!("VIOLATION property={prop} replay={replay}");
+        std::println!("  scenario c0:want:writers:ops = {}  [{}]  {kind}: {}", sc.encode(), ["random", "pct-2", "pct-3"][f.mode], f.msg.lines().next().unwrap_or(""));
+        if first_msg.is_empty() {
+            first_msg = f.msg.clone();
+        }
+    }
+    let mut samples: Vec<String> = vec![];
+    for (k, sc) in scs.iter().enumerate() {
         if samples.len() < 6 && k % (scs.len() / 6).max(1) == 0 {
             samples.push(sc.encode());
-        }
-        if violations >= 3 {
-            break;
         }
     }
     let runs = RUNS.load(StdOrdering::Relaxed);
